@@ -1,7 +1,7 @@
-E21="a promise made in a docstring or in the docs (a default value, the order of returned values, units, which argument wins when two are given) that the code stops keeping in a corner"
-E22="NumPy vectorisation and broadcasting: shape (n,) versus (n,1), an axis argument, keepdims, reshape order (C versus F), a transpose, np.squeeze / np.atleast_2d on one-element inputs"
-E23="Python language pitfalls: a mutable default argument, late binding of a loop variable in a closure, is versus ==, integer division, a chained comparison, the truth value of 0 / an empty container / an array, a bare except that swallows an error"
-E24="the interaction with sympy: simplification (simplify, cancel, together, expand), assumptions (real, positive), simultaneous versus sequential substitution, symbol names that clash with sympy objects (beta, gamma, S, N, E, I, Q, lambda), the modules argument of lambdify"
+E21="a limit or early exit: an iteration cap, a step limit, a break / continue condition, the guard of a while loop, a maximum number of attempts, a tolerance that ends a loop"
+E22="copy and paste between sibling functions: something fixed or changed in one twin but not the other (the IV and non-IV variants, the _T wrappers, the exact and tau-leap paths, the d / p / q / r family of one distribution, Square versus Normal), or arguments swapped between twins"
+E23="units and scales: log versus log10, natural versus logarithmic scale, rate versus scale, variance versus standard deviation, a weight versus its square, per-capita versus total, radians versus periods"
+E24="type dispatch: isinstance chains (Number versus np.number versus bool, list versus tuple versus ndarray, str versus sympy Symbol), hasattr checks, a legitimate but unexpected type going through the wrong branch"
 mk() { /verif/tools/mkwt.sh "$1" "$2" "$3"; }
 A() { python3 - "$1" <<'PY'
 import json,glob,os,sys
